@@ -131,6 +131,8 @@ type runner struct {
 	executed map[string]int
 	failed   map[string]bool
 	allowErr bool // the runner itself may fail (an error, not an exit status)
+	writes   map[string][]string // task -> files its commands may rewrite (dependencies of later tasks)
+	murky    map[string]bool     // tasks that rewrote a dependency of their own: no claim about them (ambiguous "inputs it completed on")
 }
 
 var errRunner = errors.New("the shell cannot run this command")
@@ -141,6 +143,17 @@ func (r *runner) Run(cmd string, stream iostream.IOStream, task string, env []st
 		return shell.Result{}, errRunner
 	}
 	st := sym.Int("status"+strconv.Itoa(r.n), 0, 1)
+	for _, f := range r.writes[task] {
+		if sym.Bool("rewrites" + strconv.Itoa(r.n) + "_" + f) {
+			put(f, sym.String("written"+strconv.Itoa(r.n)+"_"+f, 1))
+			for _, own := range declared[task].Files {
+				if own == f {
+					r.murky[task] = true
+				}
+			}
+			sym.Reach("Inv/command-rewrote-a-later-task's-input")
+		}
+	}
 	r.n++
 	r.executed[task]++
 	if st != 0 {
@@ -220,6 +233,8 @@ type ghost struct {
 	// exempt: since that success the task failed on exactly those inputs (sticky until the next
 	// success; may be a symbolic boolean). Its digest is then cleared and it must run again (C09).
 	exempt bool
+	// unknown: in this step the task's own commands rewrote one of its own dependencies
+	unknown bool
 }
 
 func splitList(s string) []string {
@@ -331,7 +346,13 @@ func Step() {
 	}
 	force := allowForce && sym.Bool("force")
 	req := requests[sym.Choice("request", len(requests))]
-	r := &runner{executed: map[string]int{}, failed: map[string]bool{}, allowErr: allowErr}
+	writes := map[string][]string{}
+	for _, part := range strings.Split(sym.ParamStr("writes", ""), ";") {
+		if t, fs, ok := strings.Cut(part, ">"); ok {
+			writes[t] = splitList(fs)
+		}
+	}
+	r := &runner{executed: map[string]int{}, failed: map[string]bool{}, allowErr: allowErr, writes: writes, murky: map[string]bool{}}
 	sf, err := file.New(parsed, root, nopLogger{})
 	if err != nil {
 		panic(err.Error())
@@ -351,6 +372,10 @@ func Step() {
 			if r.executed[t] == 0 {
 				continue
 			}
+			if r.murky[t] {
+				gh[t].unknown = true
+				continue
+			}
 			cur := inputsOf(tree, t)
 			g := gh[t]
 			switch {
@@ -364,7 +389,7 @@ func Step() {
 				g.exempt = false
 			}
 		}
-		checkInvariant(names, gh)
+		checkInvariant(names, gh, force)
 		return
 	}
 	sym.Reach("Inv/step-done")
@@ -372,6 +397,9 @@ func Step() {
 	// ---------------- step assertions (as in the history harness) ----------------
 	for _, res := range results {
 		t := res.Task
+		if r.murky[t] {
+			continue
+		}
 		cur := inputsOf(tree, t)
 		g := gh[t]
 		ncmd := declared[t].Commands
@@ -400,6 +428,10 @@ func Step() {
 		if res.Skipped {
 			continue
 		}
+		if r.murky[t] {
+			gh[t].unknown = true
+			continue
+		}
 		cur := inputsOf(tree, t)
 		g := gh[t]
 		if r.failed[t] {
@@ -412,11 +444,11 @@ func Step() {
 			g.exempt = false
 		}
 	}
-	checkInvariant(names, gh)
+	checkInvariant(names, gh, force)
 }
 
 // checkInvariant: the representation invariant on the post-state.
-func checkInvariant(names []string, gh map[string]*ghost) {
+func checkInvariant(names []string, gh map[string]*ghost, forced bool) {
 	post := readCache()
 	if post == nil {
 		sym.Violation("Ind/no-readable-cache-after-a-run", "")
@@ -425,9 +457,17 @@ func checkInvariant(names []string, gh map[string]*ghost) {
 	for _, t := range names {
 		g := gh[t]
 		c := post[t]
+		if g.unknown {
+			continue
+		}
 		if c != "" {
 			// Inv: a recorded digest describes the inputs of the last success
-			sym.Assert(g.succeeded && len(g.last.paths) > 0 && c == g.last.digest, "C01/invariant-not-preserved/recorded-digest-is-not-that-of-the-last-success")
+			id := "C01/invariant-not-preserved/recorded-digest-is-not-that-of-the-last-success"
+			if forced {
+				// C14, second sentence: a forced run does not damage the cache
+				id = "C14/a-forced-run-damaged-the-cache/recorded-digest-is-not-that-of-the-last-success"
+			}
+			sym.Assert(g.succeeded && len(g.last.paths) > 0 && c == g.last.digest, id)
 		}
 		if g.succeeded && len(g.last.paths) > 0 {
 			// Inv2: every success that was not followed by a failure on the same inputs is recorded
